@@ -39,6 +39,8 @@ inductive Err
   | other
 deriving DecidableEq, Repr, Inhabited
 
+deriving instance DecidableEq for Except
+
 /-- An operand `Var`: its type, or `none` when the Var's type is unknown (`var.type is None`). -/
 abbrev Operand := Option Ty
 
@@ -217,6 +219,16 @@ def CbBehaviour.result : CbBehaviour → Except Err Nat
   | .returnsVars n => .ok n
   | .raises => .error .other
   | _ => .error .typeError
+
+/-- A callback is *good* if it returns an iterable of Vars, *bad* if `subgraph` must reject it. -/
+def CbBehaviour.bad : CbBehaviour → Bool
+  | .notCallable => true
+  | .nonIterable => true
+  | .hasNonVar _ => true
+  | _ => false
+def CbBehaviour.good : CbBehaviour → Bool
+  | .returnsVars _ => true
+  | _ => false
 
 /-- One callback invocation. -/
 structure Event where
